@@ -403,7 +403,7 @@ def run(tier, seed):
         rc, out = sh(LIMIT + [binp, "-mode", "fs", "-seed", str(seed), "-dir", base, "-mods", str(nmods), "-conc", str(nconc), "-copies", str(ncopies)], timeout=3000)
     finally:
         shutil.rmtree(base, ignore_errors=True)
-    evs = [json.loads(ln) for ln in out.split("\n") if ln.startswith("{")]
+    evs = jlines(out)
     if rc != 0 or not evs:
         ck.violation("harness-crash", {"kind": "crash", "mode": "fs"}, {"rc": rc, "tail": out[-3000:]})
         return ck.finish()
